@@ -58,7 +58,7 @@ fn gen(t: &mut Tape, _tier: Tier) -> Scenario {
     for _ in 0..nops {
         match t.below(10) {
             0 => ops.extend_from_slice(&[OP_FLUSH, 0]),
-            1 => ops.extend_from_slice(&[OP_PEEK, 0]),
+            1 => ops.extend_from_slice(&[[OP_PEEK, OP_PEEK_MUT][t.below(2) as usize], 0]),
             2 => ops.extend_from_slice(&[OP_WRITE, 0]),
             3 => ops.extend_from_slice(&[OP_WRITE, t.range(1, 2000)]),
             4 => ops.extend_from_slice(&[OP_WRITE_N, t.range(1, 300)]),
